@@ -143,6 +143,10 @@ func (s *Sess) diassociateURR(urrid uint32) []report.USAReport {
 	if !ok {
 		return nil
 	}
+	if urrInfo.removed {
+		// already withdrawn from the data plane; its final usage was reported by the removal
+		return nil
+	}
 
 	if urrInfo.refPdrNum > 0 {
 		urrInfo.refPdrNum--
